@@ -101,8 +101,8 @@ CHECKS["C19"] = ("pure", "exploration",
     "(34 operators: height, hash, time, state root fields, meta header, last commit), transaction lists and block results are dropped/added/reordered/altered or served for another height, validator sets "
     "are altered, inclusion proofs are checked for every index pair of generated lists and under mutation, and metadata-transaction forgeries are tried. A mutant must be rejected or decode (independently) "
     "to the identical content. Three defects found this way were repaired (last-commit height / block ID binding, nil result panic); six inherent unbound fields are known findings with probes.",
-    "Block.Size and result events are declared unverifiable by the code itself and only counted. verifyParameters and the light-client dependent wrappers (caches, queriers) are exercised only "
-    "through their pure comparison parts.",
+    "Block.Size and result events are declared unverifiable by the code itself and only counted. verifyParameters is driven through a verif-tagged export (TestC19Parameters); Core.GetBlockResults / "
+    "GetTransactionsWithResults are driven over a generated trusted light store with gaps, unreachable providers and tampered results (TestC19CoreResults); the remaining querier wrappers only through their pure comparison parts.",
     "DESIGN.md 4/C19")
 
 CHECKS["C01"] = ("chain", "exploration",
@@ -112,7 +112,7 @@ CHECKS["C01"] = ("chain", "exploration",
     "results, process-proposal, process-another-proposal-first, plain replay), disk-backed replicas are restarted at generated heights and one replica gets side traffic (CheckTx, EstimateGas, state reads) "
     "at generated points between ABCI calls. Every height all replicas must agree on AppHash, per-transaction results and validator updates (as a set), and accept the proposal. Running the replicas in one "
     "process also samples different Go map iteration orders (a seeded unsorted-map mutant is caught this way).",
-    "Interleavings are harness-scheduled between ABCI calls, not true thread interleavings; CheckTx is never issued during Commit. Runtime (roothash) transactions are not generated yet.",
+    "Interleavings are harness-scheduled between ABCI calls, not true thread interleavings; CheckTx is never issued during Commit. Roothash, vault and governance traffic is part of the histories; some replicas run the real node-local upgrade manager over a persistent store while governance passes upgrade proposals (node-local data must not leak into the verdict); a third of the cases run the VRF beacon with real proofs.",
     "DESIGN.md 3.2, 4/C01")
 CHECKS["C05"] = ("chain", "exploration",
     "history invariant recomputed with big integers after every block (rapid) + in-tree sanity checker as second opinion",
@@ -128,7 +128,7 @@ CHECKS["C10"] = ("chain", "exploration",
     "participation, total slashing, depleted pools, coinciding epoch events) in two modes per block: an HONEST proposer whose mempool is what passed CheckTx must always obtain a proposal that every replica accepts; "
     "a BYZANTINE proposer includes everything and may inject transactions behind its own PrepareProposal. Accepted blocks must execute without panic on the process and the replay path with identical AppHash; "
     "a rejected Byzantine block must also be unexecutable on the replay path; validator updates must satisfy the engine's contract.",
-    "The documented precondition (a validator can still be elected) is kept by an anchor validator entity and recognised by its error text otherwise (counted discard). No runtime transactions yet. The traffic mix includes the registry generator of C17 and the debonding profile of C15.",
+    "The documented precondition (a validator can still be elected) is kept by an anchor validator entity and recognised by its error text otherwise (counted discard). Runtime-heavy traffic is one of the mixes: whole runtime rounds are scripted (agreeing, scheduler-only, dissent resolved / overruled / unresolved by the backup workers, failure votes, silence) in epochs long enough for a round to time out, be resolved or fail, so that the pay / slash / liveness code of roothash EndBlock runs; a chain halt found this way on the pinned tree was repaired (regression TestC10SlashRewardDeadPool). The traffic mix includes the registry generator of C17 and the debonding profile of C15.",
     "DESIGN.md 4/C10")
 CHECKS["C08"] = ("chain", "exploration",
     "exact working-state diff of single probe transactions against an independent authentication predicate (rapid)",
@@ -170,7 +170,7 @@ CHECKS["C14"] = ("chain", "exploration",
     "re-registration. For every epoch-transition block the state right after BeginBlock is captured and, after the commit, every elected validator and committee member is checked to be registered, unexpired, "
     "unfrozen, carrying the role / runtime version and covered by its entity's stake; limits, stake order, voting power = VotingPowerFromStake and its monotonicity, exact committee sizes and 'validator "
     "updates turn the previous set into the elected one' (against the consensus-engine model) are verified; a second replica must agree on the AppHash.",
-    "Insecure beacon backend only (VRF eligibility not driven); elections triggered by slashing inside an epoch are executed but only epoch-transition elections are evaluated. Runtime scheduling constraints are generated (per-entity MaxNodes, MinPoolSize above the group size, validator-set membership) and checked: candidate pool after the per-entity cap >= MinPoolSize for every existing committee, members per entity <= MaxNodes.",
+    "Both beacon backends: with the VRF backend nodes submit real proofs, sit out epochs or are late, and the oracle follows the VRF eligibility rules (proof required for validators once MinValidators candidates proved, for committee members always; low-quality alpha = no committees; registration must predate the epoch). Elections triggered by slashing inside an epoch are executed but only epoch-transition elections are evaluated. Runtime scheduling constraints are generated (per-entity MaxNodes, MinPoolSize above the group size, validator-set membership) and checked: candidate pool after the per-entity cap >= MinPoolSize for every existing committee, members per entity <= MaxNodes.",
     "DESIGN.md 4/C14")
 
 CHECKS["C17"] = ("chain", "exploration",
